@@ -116,9 +116,9 @@ def build_filtering_func(patterns):
 
     if not selected and unselected:
         # If there's no selection patterns but some un-selection patterns,
-        # suppose we want everything (that is, everything that matches '.'),
-        # minus the un-selection ones.
-        selected.append(re.compile('.').search)
+        # suppose we want everything (the empty pattern matches any name,
+        # including names '.' does not match), minus the un-selection ones.
+        selected.append(re.compile('').search)
 
     def accept(value):
         return (any(search(value) for search in selected) and not
